@@ -225,7 +225,7 @@ def _job(args):
 #
 def run_race(ctx):
     from checks import c13_pilot_death
-    c13_pilot_death.run_race(ctx)
+    c13_pilot_death.run_race(ctx, deep=not ctx.quick)
 
 
 # ------------------------------------------------------------------------------
